@@ -25,6 +25,7 @@ template <class C> struct Runner {
         else if (injected) { lc->faults_unreached++; if (rc0 && (rc != *rc0 || key != *key0)) what = "no failure was consumed, yet the result differs from the undisturbed run"; }
         else { if (rc0) *rc0 = rc; if (key0) *key0 = key; }
         uint64_t f_before = mem.frees();
+        if (what.empty()) what = sc.inputs_changed();
         sc.cleanup(rc);
         if (what.empty() && mem.outstanding() != 0) what = fmt("%ld block(s) still allocated after the caller's ordinary cleanup (rc=%d)", mem.outstanding(), rc);
         (void)f_before; uint64_t f1 = mem.frees();
